@@ -54,6 +54,37 @@ def rewrites():
                                                           "#[into(owned(u16), owned(u32))] struct S(u8);", "#[into(owned(u16))] #[into(owned(u32,))] struct S(u8);"]))
     R.append(("Into", "reference kinds in any order / split", ["#[into(owned, ref, ref_mut)] struct S(u8, u16);", "#[into(ref_mut, owned, ref)] struct S(u8, u16);", "#[into(owned)] #[into(ref)] #[into(ref_mut)] struct S(u8, u16);",
                                                                "#[into(ref, ref_mut,)] #[into(owned)] struct S(u8, u16);"]))
+    # every way of spreading reference kinds over up to three attributes must equal the single merged attribute
+    kinds = ["owned", "ref", "ref_mut"]
+    subsets = [c for n in (1, 2, 3) for c in itertools.combinations(kinds, n)]
+    for pos, tmpl in (("struct", "%s struct S(u8, u16);"), ("field", "struct S { %s a: u8, b: u16 }")):
+        groups = {}
+        for n in (1, 2, 3):
+            for seq in itertools.product(subsets, repeat=n):
+                union = tuple(k for k in kinds if any(k in part for part in seq))
+                text = tmpl % " ".join("#[into(%s)]" % ", ".join(part) for part in seq)
+                groups.setdefault(union, []).append(text)
+        for union, forms in groups.items():
+            base = tmpl % ("#[into(%s)]" % ", ".join(union))
+            R.append(("Into", "reference kinds spread over several attributes (%s level) = %s" % (pos, "+".join(union)), [base] + forms))
+    # typed variants of the same
+    for seq in itertools.permutations(["owned(u16)", "ref(u8)", "ref_mut"], 3):
+        pass
+    R.append(("Into", "typed kinds spread over attributes", ["#[into(owned(u16), ref(u8), ref_mut)] struct S(u8);"] +
+              ["%s struct S(u8);" % " ".join("#[into(%s)]" % a for a in seq) for seq in itertools.permutations(["owned(u16)", "ref(u8)", "ref_mut"], 3)] +
+              ["#[into(%s)] #[into(%s)] struct S(u8);" % (", ".join(seq[:2]), seq[2]) for seq in itertools.permutations(["owned(u16)", "ref(u8)", "ref_mut"], 3)]))
+    # type lists: every ordered split of a three-type list
+    for d, a, item in (("From", "from", "struct S(u64);"), ("Into", "into", "struct S(u8);"), ("AsRef", "as_ref", "struct S(String);")):
+        tys = {"from": ["u8", "u16", "u32"], "into": ["u16", "u32", "u64"], "as_ref": ["str", "[u8]", "String"]}[a]
+        forms = []
+        for perm in itertools.permutations(tys):
+            for cut in ((3,), (1, 2), (2, 1), (1, 1, 1)):
+                parts, k = [], 0
+                for c in cut:
+                    parts.append(perm[k:k + c])
+                    k += c
+                forms.append("%s %s" % (" ".join("#[%s(%s)]" % (a, ", ".join(p)) for p in parts), item))
+        R.append((d, "every ordered split of a type list over attributes", forms))
     R.append(("Into", "default is owned", ["struct S(u8, u16);", "#[into] struct S(u8, u16);", "#[into(owned)] struct S(u8, u16);"]))
     R.append(("Into", "field-level lists", ["struct S { #[into(u16, u32)] a: u8, b: u8 }", "struct S { #[into(u16)] #[into(u32)] a: u8, b: u8 }", "struct S { #[into(owned(u32, u16))] a: u8, b: u8 }"]))
     for d, a in (("AsRef", "as_ref"), ("AsMut", "as_mut")):
